@@ -335,3 +335,60 @@ def run_warped(coro_fn):
         finally:
             asyncio.set_event_loop(None)
             loop.close()
+
+
+# --------------------------------------------------------------------------------------------- wire conservation
+class WireMonitor:
+    """Conservation at the websocket boundary: every message a protocol object hands to send() is logged with its
+    length and digest, and so is every message recv() returns (class-attribute wrapping of websockets' common protocol,
+    so the real client, the raw client and the server's connections are all covered).  `missing()` lists messages that
+    were sent by one side and not received, byte for byte, by the other."""
+
+    def __init__(self):
+        import hashlib
+        import websockets.legacy.protocol as proto
+        self.sent, self.received = [], []
+        self.fragmented = 0
+        P = proto.WebSocketCommonProtocol
+        self._P, self._orig_send, self._orig_recv = P, P.send, P.recv
+        mon = self
+
+        async def send(self, message):
+            if isinstance(message, (bytes, bytearray, memoryview, str)):
+                b = message.encode() if isinstance(message, str) else bytes(message)
+                mon.sent.append((self.is_client, len(b), hashlib.blake2b(b, digest_size=12).digest()))
+            elif hasattr(message, "__iter__"):
+                # a fragmented message: what the caller hands over, piece by piece, is one message on the other side
+                message = list(message)
+                b = b"".join(x.encode() if isinstance(x, str) else bytes(x) for x in message)
+                mon.sent.append((self.is_client, len(b), hashlib.blake2b(b, digest_size=12).digest()))
+                mon.fragmented += 1
+            return await mon._orig_send(self, message)
+
+        async def recv(self):
+            m = await mon._orig_recv(self)
+            b = m.encode() if isinstance(m, str) else bytes(m)
+            mon.received.append((self.is_client, len(b), hashlib.blake2b(b, digest_size=12).digest()))
+            return m
+        P.send, P.recv = send, recv
+
+    def uninstall(self):
+        self._P.send, self._P.recv = self._orig_send, self._orig_recv
+
+    def mark(self):
+        return (len(self.sent), len(self.received))
+
+    def sent_by_client_since(self, mark):
+        return [ln for (is_client, ln, _) in self.sent[mark[0]:] if is_client]
+
+    def missing(self, mark=(0, 0)):
+        """(direction, length) of messages sent since `mark` whose exact bytes the peer side did not receive"""
+        import collections
+        got = collections.Counter((not c, ln, dg) for (c, ln, dg) in self.received[mark[1]:])
+        out = []
+        for (c, ln, dg) in self.sent[mark[0]:]:
+            if got[(c, ln, dg)] > 0:
+                got[(c, ln, dg)] -= 1
+            else:
+                out.append(("client->server" if c else "server->client", ln))
+        return out
